@@ -530,6 +530,12 @@ func cmdCheck(args []string) int {
 		fmt.Println(l)
 	}
 	wall := time.Since(start).Seconds()
+	if agg.nontriv == 0 && exit == 0 {
+		// a batch in which no run reached its oracle proves nothing: fail loudly (machinery trouble)
+		// rather than report "held"
+		fmt.Printf("simdriver: %s %s: none of %d runs was non-trivial (invalid=%d %v): the workload did not reach the oracle\n", prop, *tier, done, agg.invalid, agg.invalidBy)
+		return 2
+	}
 	if !*noEvidence {
 		writeEvidence(prop, cfg, *tier, *seed, agg, done, raceDone, wall, buildS, exploreS, reported, nw)
 	}
